@@ -99,9 +99,32 @@ func newRecv(prec uint32, mode uint8) *decimal.Decimal {
 	return z
 }
 
+// ladenRecv returns a receiver with the same precision and mode as newRecv
+// gives, but with a history: it held a long negative value with spare capacity
+// and its last operation was inexact.
+func ladenRecv(prec uint32, mode uint8) *decimal.Decimal {
+	z := new(decimal.Decimal).SetPrec(120)
+	three := new(decimal.Decimal).SetInt64(-3)
+	z.Quo(new(decimal.Decimal).SetInt64(1), three) // -0.333... inexact
+	z.SetMode(decimal.RoundingMode(mode))
+	if prec != 0 {
+		z.SetPrec(uint(prec))
+		if z.Acc() == decimal.Exact {
+			z.Quo(z, three)
+		}
+	} else {
+		z.SetPrec(0) // zero value of the sign it had, accuracy not Exact
+	}
+	return z
+}
+
 // parseVia runs one entry point on text.
 func parseVia(entry, text string, base int, prec uint32, mode uint8, chunk int, faults []ReadFault, fired map[string]int) (out parseOutcome) {
 	z := newRecv(prec, mode)
+	if strings.HasSuffix(entry, "+laden") {
+		entry = strings.TrimSuffix(entry, "+laden")
+		z = ladenRecv(prec, mode)
+	}
 	defer func() {
 		if r := recover(); r != nil {
 			out.panicMsg = fmt.Sprint(r)
@@ -588,6 +611,19 @@ func runParse(sc *Scenario) *Outcome {
 		}
 	}
 	ref := parseVia("Parse", text, base, prec, mode, 0, nil, nil)
+	if !single || bs.Entry == "Parse+laden" {
+		// the outcome must not depend on what the receiver held before (value,
+		// sign, accuracy, buffer): same call into a history-laden receiver
+		lad := one("Parse+laden", text, base, 0, nil)
+		if lad.panicMsg != "" {
+			return viol("parse-panic", fmt.Sprintf("Parse(%q, %d) into a used receiver panicked: %s", text, base, lad.panicMsg), &BytesSpec{Entry: "Parse+laden", Text: text, Base: base, RecvPrec: prec, RecvMode: mode})
+		}
+		if lad.ok != ref.ok || (ref.ok && lad.key() != ref.key()) {
+			return viol("depends-on-receiver-history", fmt.Sprintf("Parse(%q, %d) into a fresh receiver  = %s\n  into a receiver that held an inexact negative value = %s", text, base, ref.key(), lad.key()),
+				&BytesSpec{Entry: "Parse+laden", Text: text, Base: base, RecvPrec: prec, RecvMode: mode})
+		}
+		cnt["laden_receiver_agreements"]++
+	}
 	ref0 := ref
 	if base != 0 {
 		ref0 = parseVia("Parse", text, 0, prec, mode, 0, nil, nil)
